@@ -66,7 +66,7 @@ theorem apply_dataOnly (db : DB) (q : Sql) (db' : DB) (r : Res) (h : db.apply q 
       simp only [Prod.mk.injEq, Option.some.injEq] at h; rw [← h.1]
       unfold Raw.release at hr
       split at hr
-      · simp only [Option.some.injEq] at hr; rw [← hr]; exact ⟨rfl, rfl, rfl, rfl, rfl, rfl⟩
+      · simp only [Option.some.injEq] at hr; rw [← hr]; split <;> exact ⟨rfl, rfl, rfl, rfl, rfl, rfl⟩
       · simp at hr
     · simp at h
 
